@@ -10,6 +10,7 @@ TLAJAR = "/opt/veriftools/tla/tla2tools.jar:/opt/veriftools/tla/CommunityModules
 NCPU = os.cpu_count() or 4
 T0 = time.time()
 ABORTS = []   # harness shards that stopped early (repeated hangs)
+CRASHED = []  # (output path, exit code, log tail) of shards that died (only with tolerate_crash)
 
 
 class Inconclusive(Exception):
@@ -89,7 +90,7 @@ def build_harness(tags="sqlite,verif", race=False, extra_overlay=None, name="har
     return out
 
 
-def run_harness(binary, family, inp, shards=None, seed_=None, timeout=3600, extra=None, env_extra=None):
+def run_harness(binary, family, inp, shards=None, seed_=None, timeout=3600, extra=None, env_extra=None, tolerate_crash=False):
     """runs the harness family over `shards` processes; returns the list of ndjson records"""
     sc = scratch()
     shards = shards or min(NCPU, 16)
@@ -116,9 +117,11 @@ def run_harness(binary, family, inp, shards=None, seed_=None, timeout=3600, extr
                 q.kill()
             raise Inconclusive("harness timed out (family %s)" % family)
         lf.close()
-        if rc != 0:
+        if rc != 0 and not tolerate_crash:
             tail = open(outp + ".log").read()[-3000:]
             raise Inconclusive("harness family %s shard failed rc=%d:\n%s" % (family, rc, tail))
+        if rc != 0:
+            CRASHED.append((outp, rc, open(outp + ".log", errors="replace").read()[-6000:]))
         if os.path.exists(outp):
             for line in open(outp):
                 line = line.strip()
